@@ -62,9 +62,28 @@ func Str(n int) string {
 		// printed selector uses as separators: {aa: <this>} prints like {aa: ab, ac: ad}
 		return Str(2) + "," + Str(3) + "=" + Str(4)
 	}
+	if sp, ok := strPrefix[n]; ok {
+		return sp
+	}
 	n--
 	return string([]byte{byte('a' + n/26), byte('a' + n%26)})
 }
+
+// Five names that are NOT of the fixed width: one is a prefix of another,
+// one continues with '-' (which sorts before '/'), and two different
+// (namespace, name) pairs concatenate to the same string ("zu"+"zzw" =
+// "zuz"+"zw").  Their numeric order is still Go's string order, among
+// themselves and against every fixed-width name below StrPrefixLo.
+const (
+	StrPrefixLo = 671
+	StrZu       = 671 // "zu"
+	StrZuEu     = 672 // "zu-eu"
+	StrZuz      = 673 // "zuz"
+	StrZw       = 674 // "zw"
+	StrZzw      = 675 // "zzw"
+)
+
+var strPrefix = map[int]string{StrZu: "zu", StrZuEu: "zu-eu", StrZuz: "zuz", StrZw: "zw", StrZzw: "zzw"}
 
 // StrPrinted is the id of the separator-laden label value (see Str).
 const StrPrinted = 26 * 26
